@@ -111,13 +111,14 @@ class IgnoreDirectiveParser:
 
 def _load_repo_ignores(project_root: Path) -> list[str]:
     """Load global ignore patterns from .thailintignore or .thailint.yaml."""
+    patterns: list[str] = []
     thailintignore = project_root / ".thailintignore"
     if thailintignore.exists():
-        return _parse_thailintignore_file(thailintignore)
+        patterns.extend(_parse_thailintignore_file(thailintignore))
     config_file = project_root / ".thailint.yaml"
     if config_file.exists():
-        return _parse_config_file(config_file)
-    return []
+        patterns.extend(p for p in _parse_config_file(config_file) if p not in patterns)
+    return patterns
 
 
 def _parse_thailintignore_file(ignore_file: Path) -> list[str]:
